@@ -217,7 +217,12 @@ func (b *MirroredBuffer) Commit(n int) int {
 		n = free
 	}
 	b.used += n
-	b.tail = (b.tail + n) & b.sizeMask
+	// The size is a multiple of the page size, not necessarily a power of two,
+	// so wrap by subtraction instead of masking (n <= free space <= size).
+	b.tail += n
+	if b.tail >= b.size {
+		b.tail -= b.size
+	}
 	return n
 }
 
@@ -229,7 +234,10 @@ func (b *MirroredBuffer) Consume(n int) int {
 		return 0
 	}
 	b.used -= n
-	b.head = (b.head + n) & b.sizeMask
+	b.head += n
+	if b.head >= b.size {
+		b.head -= b.size
+	}
 	return n
 }
 
